@@ -38,9 +38,12 @@ RULE = ("random pipelines of 1..6 files over a measurement of 1..40 events "
         "rtdc_copy of scalar features) of referrer files, 22% focus cases "
         "(non-monotone maps: permutations, repeats+skips, read by slice / "
         "mask / [:] / iteration / np.array on image, mask, contour, trace), "
+        "unfiltered exports and empty selections, origin in the same / a "
+        "sub- / a sibling directory, NaN/inf and an integer-typed scalar, "
         "optional move of all files to another "
         "directory; queries by integer (also negative / out of range), "
-        "slices with steps, boolean and integer arrays and [:] in orders "
+        "slices with positive and negative steps, np.int64, boolean and "
+        "integer arrays, [:], iteration, np.array, np.array(dtype=int) in orders "
         "that exercise the cached and uncached routes; a case is non-trivial "
         "when at least one query is answered through a mapped basin with "
         "non-identity map; distinct = different JSON of the case")
@@ -71,8 +74,9 @@ ASSUMPTIONS = [
     "covers cycles)",
 ]
 
-SCALARS = ["g_force", "pc1", "pc2"]
-FEAT_ID = {"g_force": 1, "pc1": 2, "pc2": 3, "image": 4,
+SCALARS = ["g_force", "pc1", "nevents"]
+SCALAR_DTYPE = {"g_force": "float64", "pc1": "float64", "nevents": "uint32"}
+FEAT_ID = {"g_force": 1, "pc1": 2, "nevents": 3, "image": 4,
            "mask": 5, "contour": 6, "trace/fl1_raw": 7, "trace/fl1_median": 8}
 TRACES = ["fl1_raw", "fl1_median"]
 F_HIER = "C07-hierarchy-export-basinmap"
@@ -115,7 +119,17 @@ def truth_of(case):
     t[SCALARS[0]] = [np.float64(i * 0.5 + (case["seed"] % 8) / 8)
                      for i in range(n)]
     t[SCALARS[1]] = [np.float64(rng.randint(-40, 400) / 8) for _ in range(n)]
-    t[SCALARS[2]] = [np.float64(rng.randint(0, 3) / 8) for _ in range(n)]
+    t[SCALARS[2]] = [np.uint32(rng.randint(0, 3)) for _ in range(n)]
+    if case.get("special"):
+        # NaN / +-inf in a float feature (own random stream)
+        rs = random.Random(case["seed"] + 1)
+        for i in range(n):
+            r = rs.random()
+            if r < 0.2:
+                t[SCALARS[1]][i] = np.float64("nan")
+            elif r < 0.3:
+                t[SCALARS[1]][i] = np.float64(
+                    "inf" if rs.random() < .5 else "-inf")
     for k in ("image", "mask"):
         if k in raw:
             t[k] = [raw[k][i] for i in range(n)]
@@ -131,7 +145,14 @@ def fp(feat, val, decoy=0):
     """fingerprint of one event's value: an integer"""
     import numpy as np
     if feat in SCALARS:
-        k = float(val) * 8
+        v = float(val)
+        if v != v:
+            return 7000001
+        if v == float("inf"):
+            return 7000002
+        if v == float("-inf"):
+            return 7000003
+        k = v * 8
         if k != int(k):
             raise ValueError("non-dyadic scalar %r" % (val,))
         return int(k)
@@ -142,6 +163,8 @@ def fp(feat, val, decoy=0):
 def decoy_value(feat, val):
     """a value different from the truth (for innate-precedence tests)"""
     import numpy as np
+    if feat == "nevents":
+        return np.uint32(int(val) + 1000)
     if feat in SCALARS:
         return np.float64(val + 1000)
     if feat == "mask":
@@ -163,7 +186,7 @@ def _feature_data(unit, rows):
     if unit == "contour":
         return list(rows[unit])
     if unit in SCALARS:
-        return np.array(rows[unit], dtype=np.float64)
+        return np.array(rows[unit], dtype=SCALAR_DTYPE[unit])
     return np.array(rows[unit])
 
 
@@ -216,11 +239,25 @@ def build_files(case, d, truth):
     files = []
     rid0 = "rid-%d" % case["seed"]
     with_fl = "trace" in case["kinds"]
+    layout = case.get("layout")
     for k, st in enumerate(case["steps"]):
-        path = os.path.join(d, "f%d.rtdc" % k)
         op = st["op"]
+        # directory of the file: exports and copies are written next to
+        # their source; the origin may live in a sub- or sibling directory
+        if op in ("export", "copy"):
+            sub = files[st["src"]]["sub"]
+        elif k == 0 and layout == "sub":
+            sub = "sub"
+        elif k == 0 and layout == "sibling":
+            sub = "a"
+        elif layout == "sibling":
+            sub = "b"
+        else:
+            sub = ""
+        os.makedirs(os.path.join(d, sub), exist_ok=True)
+        path = os.path.join(d, sub, "f%d.rtdc" % k)
         info = dict(path=path, err=None, mapped=False, proxy=False,
-                    cascade=False)
+                    cascade=False, sub=sub)
         try:
             srcs = [st["src"]] if op in ("export", "copy") else [
                 b["src"] for b in st["basins"]]
@@ -293,8 +330,10 @@ def build_files(case, d, truth):
                                 bmap = ("basinmap%d" % b["name"], bmap)
                             if b["map"] != list(range(len(src["omap"]))):
                                 info["mapped"] = True
-                        locs = [src["path"], os.path.basename(src["path"])]
-                        verify = bool(b.get("verify"))
+                        rel = os.path.relpath(src["path"],
+                                              os.path.dirname(path))
+                        locs = [src["path"], rel]
+                        verify = bool(b.get("verify")) and ".." not in rel
                         if verify:
                             locs = [src["path"]]
                         hw.store_basin(
@@ -323,16 +362,20 @@ def build_files(case, d, truth):
                         ds.apply_filter()
                         idx = [i for i, keep in zip(idx, pf) if keep]
                         ds = dclab.new_dataset(ds)
-                    filt = expand_filt(st["filt"])
-                    ds.filter.manual[:] = np.array(filt, dtype=bool)
-                    ds.apply_filter()
-                    idx = [i for i, keep in zip(idx, filt) if keep]
+                    filtered = st.get("filtered", True)
+                    if filtered:
+                        filt = expand_filt(st["filt"])
+                        ds.filter.manual[:] = np.array(filt, dtype=bool)
+                        ds.apply_filter()
+                        idx = [i for i, keep in zip(idx, filt) if keep]
                     feats = st["feats"]
                     ds.export.hdf5(path, features=feats, basins=True,
-                                   filtered=True)
+                                   filtered=filtered)
                 omap = [src["omap"][i] for i in idx]
                 innate = {}
-                if feats is None:
+                if not omap:
+                    stored = []      # nothing is written for no events
+                elif feats is None:
                     stored = [f for f in src["innate"]]
                 else:
                     stored = expand(feats)
@@ -343,9 +386,10 @@ def build_files(case, d, truth):
                     rid = h5.attrs["experiment:run identifier"]
                     if isinstance(rid, bytes):
                         rid = rid.decode("utf-8")
+                got = set(src["avail"]) if omap else set()
                 info.update(omap=omap, innate=innate,
-                            via_file=set(src["avail"]), via_int=set(),
-                            avail=set(src["avail"]) | set(innate),
+                            via_file=got, via_int=set(),
+                            avail=got | set(innate),
                             rid=rid, mapped=(
                                 info["mapped"] or src["mapped"]
                                 or idx != list(range(len(src["omap"])))))
@@ -395,10 +439,48 @@ def build_files(case, d, truth):
         if not info["err"]:
             try:
                 info["struct"] = check_basin_defs(path, info, files)
-            except BaseException as e:
-                info["struct"] = "cannot read the basin definitions: %r" % (e,)
+            except BaseException:
+                # another file layout: no judgement from this check
+                info["struct"] = None
+            try:
+                info["chain"] = chain_observation(case, k, path, files)
+            except BaseException:
+                info["chain"] = None
         files.append(info)
     return files
+
+
+def chain_of(case, k):
+    """filters of a chain of plain filtered file exports origin -> ... -> k
+    (None if file k is not the end of such a chain)"""
+    filts = []
+    while True:
+        st = case["steps"][k]
+        if st["op"] != "export" or st["pfilts"] or \
+                not st.get("filtered", True) or isinstance(st["filt"], dict):
+            return None
+        filts.insert(0, st["filt"])
+        k = st["src"]
+        if k == 0:
+            return filts
+
+
+def chain_observation(case, k, path, files):
+    """(filters, raw map of the basin definition that points to the origin,
+    origin events of the file) for ends of plain export chains"""
+    import h5py
+    filts = chain_of(case, k)
+    if filts is None or not all(any(f) for f in filts):
+        return None
+    with h5py.File(path, "r") as h5:
+        for key in h5["basins"]:
+            lines = [ln.decode("utf-8") if isinstance(ln, bytes) else ln
+                     for ln in h5["basins"][key][:]]
+            bd = json.loads(" ".join(lines))
+            if os.path.basename(bd["paths"][0]) == "f0.rtdc":
+                m = [int(x) for x in h5["events"][bd["mapping"]][:]]
+                return [filts, m]
+    return None
 
 
 def expand_filt(filt):
@@ -459,13 +541,15 @@ def py_index(ix):
     t = ix[0]
     if t == "int":
         return ix[1]
+    if t == "npint":
+        return np.int64(ix[1])
     if t == "slice":
         return slice(ix[1], ix[2], ix[3])
     if t == "bool":
         return np.array(ix[1], dtype=bool)
     if t == "arr":
         return np.array(ix[1], dtype=np.int64)
-    if t in ("all", "iter", "array"):
+    if t in ("all", "iter", "array", "cast"):
         return slice(None)
     raise ValueError(ix)
 
@@ -479,15 +563,21 @@ def expected(truth, info, feat, ix):
     omap = info["omap"]
     try:
         pos = np.arange(len(omap))[py_index(ix)]
-    except IndexError:
+    except (IndexError, ValueError):
         return 2, []
     dec = info["innate"].get(feat, False)
 
     def val(j):
         v = truth[feat][j]
         return fp(feat, decoy_value(feat, v) if dec else v)
+    if ix[0] == "npint":
+        pos = np.asarray(pos)
     if np.ndim(pos) == 0:
         return 0, [val(omap[int(pos)])]
+    if ix[0] == "cast":
+        # np.array(obj, dtype=int): truncation towards zero
+        import math
+        return 1, [math.trunc(val(omap[int(p)]) / 8) * 8 for p in pos]
     return 1, [val(omap[int(p)]) for p in pos]
 
 
@@ -498,14 +588,16 @@ def observe(ds, feat, ix):
             obj = ds["trace"][feat.split("/")[1]]
         else:
             obj = ds[feat]
-    except KeyError:
-        return 3, [], None
     except BaseException as e:
-        return 4, [], "%s: %s" % (type(e).__name__, str(e)[:160])
+        # the property does not fix the exception class
+        return 3, [], "%s: %s" % (type(e).__name__, str(e)[:160])
     try:
         if ix[0] == "iter":
             # iteration over the feature object
             res = [v for v in obj]
+        elif ix[0] == "cast":
+            # conversion with a lossy dtype; later reads must not see it
+            res = np.array(obj, dtype=np.int64)
         elif ix[0] == "array":
             # conversion with numpy (ragged features: array of objects)
             if feat == "contour":
@@ -516,17 +608,37 @@ def observe(ds, feat, ix):
                 raise ValueError("np.array returned shape %r" % (res.shape,))
         else:
             res = obj[py_index(ix)]
-    except IndexError as e:
+    except BaseException as e:
+        # any exception: the property does not fix the class
         return 2, [], "%s: %s" % (type(e).__name__, str(e)[:160])
-    except BaseException as e:
-        return 4, [], "%s: %s" % (type(e).__name__, str(e)[:160])
     try:
-        if ix[0] == "int":
-            return 0, [fp(feat, res)], None
-        return 1, [fp(feat, res[i]) for i in range(len(res))], None
+        if ix[0] in ("int", "npint"):
+            return 0, [fp(feat, res)], "dtype=" + np.asarray(res).dtype.name
+        dt = np.asarray(res[0]).dtype.name if len(res) else None
+        if hasattr(res, "dtype") and res.dtype != object:
+            dt = res.dtype.name
+        if (ix[0] == "array" and feat == "contour") or ix[0] == "cast":
+            dt = None        # array of objects / requested dtype
+        return 1, [fp(feat, res[i]) for i in range(len(res))], \
+            ("dtype=" + dt if dt else None)
     except BaseException as e:
-        return 4, [], "result unusable: %s: %s" % (type(e).__name__,
+        return 2, [], "result unusable: %s: %s" % (type(e).__name__,
                                                   str(e)[:160])
+
+
+def ref_dtype(ds0, feat, cache):
+    """dtype name of one event of the origin's feature"""
+    import numpy as np
+    if feat not in cache:
+        try:
+            if feat.startswith("trace/"):
+                obj = ds0["trace"][feat.split("/")[1]]
+            else:
+                obj = ds0[feat]
+            cache[feat] = np.asarray(obj[0]).dtype.name
+        except BaseException:
+            cache[feat] = None
+    return cache[feat]
 
 
 def run_case(args):
@@ -564,9 +676,12 @@ def run_case(args):
             shutil.rmtree(d2, ignore_errors=True)
             os.rename(d, d2)
             for info in files:
-                info["path"] = os.path.join(d2, os.path.basename(info["path"]))
+                info["path"] = os.path.join(d2, info["sub"],
+                                            os.path.basename(info["path"]))
             d = d2
         opened = {}
+        refdt = {}
+        found = []
         try:
             for q in case["queries"]:
                 fid, feat, ix = q
@@ -580,6 +695,19 @@ def run_case(args):
                 st, vals, msg = observe(ds, feat, ix)
                 est, evals = expected(truth, info, feat, ix)
                 flat.append([st] + vals)
+                if st in (0, 1) and msg and msg.startswith("dtype="):
+                    # dtype of what is handed out = dtype of the origin's
+                    # feature (the fingerprints compare values only)
+                    if fid != 0 and (0 not in opened):
+                        opened[0] = dclab.new_dataset(files[0]["path"])
+                    want = ref_dtype(opened.get(0, ds), feat, refdt)
+                    if want and msg[6:] != want:
+                        fails.append((
+                            "file %d feature %s index %s: dtype %s, the "
+                            "origin's feature has dtype %s" % (
+                                fid, feat, json.dumps(ix), msg[6:], want),
+                            None))
+                    msg = None
                 if (st, vals) != (est, evals):
                     desc = ("file %d feature %s index %s: got status %d %s%s, "
                             "the origin events %s give status %d %s" % (
@@ -591,6 +719,19 @@ def run_case(args):
                 elif st in (0, 1) and info["mapped"] and \
                         feat not in info["innate"]:
                     nontrivial = True
+            # which stored location the basins were found at (0: the absolute
+            # path, 1: the path relative to the referrer)
+            for fid, ds in list(opened.items()):
+                try:
+                    first = set(bd["paths"][0]
+                                for bd in ds.basins_get_dicts()
+                                if bd.get("type") == "file")
+                    for bn in ds.basins:
+                        if bn.basin_type == "file":
+                            found.append(0 if str(bn.location) in first
+                                         else 1)
+                except BaseException:
+                    pass
         finally:
             for ds in opened.values():
                 try:
@@ -598,6 +739,10 @@ def run_case(args):
                 except BaseException:
                     pass
         stats["files"] = len(files)
+        stats["found"] = [bool(case.get("move")), sorted(set(found))]
+        stats["chains"] = [[k] + info["chain"] + [info["omap"]]
+                           for k, info in enumerate(files)
+                           if info.get("chain")]
     except BaseException as e:
         import traceback
         fails.append(("harness error: %s" % traceback.format_exc()[-600:],
@@ -674,8 +819,8 @@ def run_bigmap(case, scratch):
                         fails.append(("basin b%d has mapping %r" % (j, mp),
                                       None))
                         continue
-                    flat.append(int(mp[8:]))
                     stored = h5["events"][mp][:]
+                    flat += [int(stored.size), checksum(stored)]
                     if stored.shape != m.shape or \
                             not bool(np.all(stored == m)):
                         bad = np.nonzero(stored != m)[0][:3] \
@@ -689,12 +834,6 @@ def run_bigmap(case, scratch):
                                [int(b) for b in bad],
                                [int(stored[b]) for b in bad],
                                [int(m[b]) for b in bad]), None))
-                flat.append(-3)
-                for k in range(10):
-                    nm = "basinmap%d" % k
-                    if nm in h5["events"]:
-                        arr = h5["events"][nm][:]
-                        flat += [k, int(arr.size), checksum(arr)]
     except BaseException:
         import traceback
         fails.append(("harness error: %s" % traceback.format_exc()[-600:],
@@ -815,16 +954,18 @@ def classify_query(case, files, q, st, msg):
         # basin, stored by an export whose filter keeps every event (fast
         # path): the proxy reported the basin's length as its shape
         stp = case["steps"][fid]
-        if stp["op"] == "export" and all(stp["filt"]) and \
+        if stp["op"] == "export" and stp.get("filtered", True) and \
+                all(expand_filt(stp["filt"])) and \
                 feat not in SCALARS and files[stp["src"]]["proxy"] and \
                 feat not in files[stp["src"]]["innate"]:
             return F_PROXY
         return None
     # (a) trace / sliced contour through a *mapped* basin raises
-    if st == 4 and info["proxy"] and feat == "contour" and \
-            ix[0] == "array":
+    other = st in (2, 3) and msg and not msg.startswith("IndexError") \
+        and not msg.startswith("KeyError")
+    if other and info["proxy"] and feat == "contour" and ix[0] == "array":
         return F_RAGGED
-    if st == 4 and info["proxy"]:
+    if other and info["proxy"]:
         if feat.startswith("trace/"):
             return F_PROXY
         if feat == "contour" and ix[0] != "int":
@@ -840,7 +981,7 @@ def classify_query(case, files, q, st, msg):
         if stp["op"] != "export":
             return None
         if stp["pfilts"] and _upstream_has_basins(case, stp["src"]) \
-                and st in (0, 1, 2):
+                and st in (0, 1, 2) and not other:
             return F_HIER
         k = stp["src"]
 
@@ -896,7 +1037,7 @@ def gen_index(rng, n, free=True):
     r = rng.random()
     if r < 0.25:
         if n and (not free or rng.random() < 0.85):
-            return ["int", rng.randrange(-n, n)]
+            return [rng.choice(["int", "int", "npint"]), rng.randrange(-n, n)]
         if not free:
             return ["all"]
         return ["int", rng.choice([n, -n - 1, n + 3])]
@@ -909,7 +1050,8 @@ def gen_index(rng, n, free=True):
     if r < 0.62:
         def end():
             return rng.choice([None, rng.randint(-n - 2, n + 2)])
-        return ["slice", end(), end(), rng.choice([None, 1, 1, 2, 3])]
+        steps = [None, 1, 1, 2, 3] + ([-1, -1, -2, -3] if free else [])
+        return ["slice", end(), end(), rng.choice(steps)]
     if r < 0.8:
         if free and rng.random() < 0.07:
             return ["bool", [rng.random() < .5 for _ in range(n + 1)]]
@@ -1048,8 +1190,13 @@ def gen_case(rng, thorough=False):
         ns = sizes[src]
         av = avail[src]
         r = rng.random()
-        if r < 0.09 and src > 0:
+        if r < 0.09 and src > 0 and (innate[src] or free[src]):
+            # (a file without any stored feature has no "events" group and
+            # its copy cannot be read: outside C07, see C08)
             how = rng.choice(["compress", "repack", "scalar"])
+            if how == "scalar" and not free[src] and not any(
+                    u in SCALARS for u in innate[src]):
+                how = "repack"
             steps.append(dict(op="copy", src=src, how=how))
             sizes.append(ns)
             leaf.append(leaf[src])
@@ -1082,14 +1229,38 @@ def gen_case(rng, thorough=False):
                 feats = None
             else:
                 feats = sub(rng, av)
-            steps.append(dict(op="export", src=src, pfilts=pf, filt=filt,
-                              feats=feats))
-            sizes.append(sum(filt))
-            leaf.append(False)
-            avail.append(list(av))
-            innate.append(list(innate[src]) if feats is None else list(feats))
-            free.append(True)
-            vfile.append(list(av))
+            mode = rng.random()
+            if mode < 0.12:
+                # filtering disabled: basins are copied
+                steps.append(dict(op="export", src=src, pfilts=pf, filt=None,
+                                  filtered=False, feats=feats))
+                sizes.append(cur)
+                free.append(bool(pf))
+                empty = False
+            elif mode < 0.17 and cur > 0:
+                # empty selection
+                filt = [False] * cur
+                steps.append(dict(op="export", src=src, pfilts=pf, filt=filt,
+                                  feats=feats))
+                sizes.append(0)
+                free.append(True)
+                empty = True
+            else:
+                steps.append(dict(op="export", src=src, pfilts=pf, filt=filt,
+                                  feats=feats))
+                sizes.append(sum(filt))
+                free.append(True)
+                empty = False
+            leaf.append(empty)
+            if empty:
+                avail.append([])
+                innate.append([])
+                vfile.append([])
+            else:
+                avail.append(list(av))
+                innate.append(list(innate[src]) if feats is None
+                              else list(feats))
+                vfile.append(list(av))
             vint.append([])
         elif r < 0.58:
             # "same" referrer: a part of the features lives in the basin
@@ -1187,10 +1358,16 @@ def gen_case(rng, thorough=False):
             fr = (free[fid] and feat not in inn) or feat in SCALARS
             pat = [gen_index(rng, sizes[fid], fr)
                    for _ in range(rng.randint(1, 3))]
+            if feat == SCALARS[0] and rng.random() < 0.25:
+                # a conversion with a lossy dtype between ordinary reads
+                pat.insert(rng.randint(0, len(pat) - 1), ["cast"])
+                pat.append(rng.choice([["all"], ["slice", None, None, 2]]))
             for ix in pat:
                 queries.append([fid, feat, ix])
     return dict(seed=seed, n=n, kinds=kinds, steps=steps,
-                move=rng.random() < 0.25, queries=queries)
+                move=rng.random() < 0.3, queries=queries,
+                layout=rng.choice([None, None, None, "sub", "sibling"]),
+                special=rng.random() < 0.3)
 
 
 # --------------------------------------------------------------------------
@@ -1210,7 +1387,7 @@ def r_feats(units):
 
 def r_index(ix):
     t = ix[0]
-    if t == "int":
+    if t in ("int", "npint"):
         return "(IInt %s)" % common.zlit(ix[1])
     if t == "all":
         return "(ISlice None None None)"
@@ -1218,6 +1395,8 @@ def r_index(ix):
         return "AIter"
     if t == "array":
         return "AArray"
+    if t == "cast":
+        return "ACast"
     if t == "slice":
         return "(ISlice %s %s %s)" % tuple(r_opt(x, common.zlit)
                                            for x in ix[1:4])
@@ -1277,16 +1456,20 @@ def render(case):
             steps.append("(SCopy %d %s)" % (st["src"], common.zlist(keep)))
         else:
             idx = list(range(len(omaps[st["src"]])))
-            for pf in st["pfilts"] + [st["filt"]]:
+            for pf in st["pfilts"] + ([st["filt"]] if st.get(
+                    "filtered", True) else []):
                 idx = [i for i, keep in zip(idx, pf) if keep]
             omaps.append([omaps[st["src"]][i] for i in idx])
             steps.append("(SExport %d %s %s %s)" % (
                 st["src"], common.clist([common.blist(pf)
                                          for pf in st["pfilts"]]),
-                common.blist(st["filt"]), r_opt(st["feats"], r_feats)))
+                ("(Some %s)" % common.blist(st["filt"]))
+                if st.get("filtered", True) else "None",
+                r_opt(st["feats"], r_feats)))
     def r_access(ix):
         r = r_index(ix)
-        return r if r in ("AIter", "AArray") else "(AIndex %s)" % r
+        return r if r in ("AIter", "AArray", "ACast") else \
+            "(AIndex %s)" % r
     qs = ["(%d, %d, %s)" % (q[0], FEAT_ID[q[1]], r_access(q[2]))
           for q in case["queries"]]
     return "(%s, %s)" % (common.clist(steps), common.clist(qs))
@@ -1313,13 +1496,15 @@ def run_cases(cases, scratch):
 
 
 def run(run):
-    ncases = 1200 if run.thorough else 140
+    ncases = 1200 if run.thorough else 100
+    if os.environ.get("VERIF_C07_CASES"):        # development aid
+        ncases = int(os.environ["VERIF_C07_CASES"])
     cases = load_corpus()
     run.count("corpus", len(cases))
     while len(cases) < ncases:
         cases.append(gen_case(run.rng, run.thorough))
     # large-index family (store_basin reuse test) and one big export chain
-    nbig = 40 if run.thorough else 8
+    nbig = 40 if run.thorough else 6
     for k in range(nbig):
         cases.append(gen_bigmap(run.rng, huge=(k % 8 == 0)))
     for k in range(3 if run.thorough else 1):
@@ -1362,11 +1547,39 @@ def run(run):
     model = common.coq_map(run.scratch, "c07", HEADER, "run_flat",
                            [render(c) for c, _ in reg], shard=12)
     modelb = common.coq_map(run.scratch, "c07big", HEADER, "run_big",
-                            [render_big(c) for c, _ in big], shard=4)
+                            [render_big(c) for c, _ in big], shard=8)
     for (c, res), m in list(zip(reg, model)) + list(zip(big, modelb)):
         run.corr_checked += 1
         if m != res["flat"]:
             run.mismatch(c, m, res["flat"])
+    # chain_map / chain_data / chain_ok (the functions of C07_chain_feature)
+    # against the map stored by real chains of filtered exports
+    chains = []
+    for c, res in reg:
+        for k, filts, rawmap, omap in res["stats"].get("chains", []):
+            chains.append((c, k, filts, rawmap, omap))
+    modelc = common.coq_map(
+        run.scratch, "c07chain", HEADER, "run_chain",
+        ["(%d, %s)" % (c["n"], common.clist([common.blist(f) for f in fl]))
+         for c, _k, fl, _m, _o in chains], shard=40)
+    for (c, k, filts, rawmap, omap), m in zip(chains, modelc):
+        run.corr_checked += 1
+        impl = rawmap + [-7] + omap + [-7, 1]
+        if m != impl:
+            run.mismatch(dict(c, chain_end=k), m, impl, what="chain_map")
+    run.count("chain_map ties", len(chains))
+    # find_basin (C07_moved_together): which stored location is used
+    modelf = common.coq_map(run.scratch, "c07find", HEADER, "run_find",
+                            ["true", "false"], shard=2)
+    for moved, m in zip((True, False), modelf):
+        seen = sorted(set(x for c, res in reg
+                          for x in res["stats"].get("found", [None, []])[1]
+                          if res["stats"].get("found", [None])[0] == moved))
+        if seen:
+            run.corr_checked += 1
+            if seen != m:
+                run.mismatch(dict(kind="find_basin", moved=moved), m, seen,
+                             what="find_basin")
     run.extra["chain_depths"] = chain_depth_hist([c for c, _ in reg])
 
 
